@@ -142,7 +142,7 @@ def run(ctx):
     for r in dv.returns:
         c = dv.length_class(r)
         classes[r.id] = c
-        ok = c in ("ALL", "ALL-BUT-TAIL", "KEEP", "FRAME")
+        ok = c in ("ALL", "ALL-BUT-TAIL", "KEEP", "FRAME", "ALL-OR-KEEP")
         ctx.instance(R2, f"Codec.decode[return L-class {c.split(':')[0]}]" if ok else f"Codec.decode[return {short(r.ast.value.elts[1], 40)}]", ok,
                      f"consumed length `{short(r.ast.value.elts[1])}` is not built from frame start / frame length / buffer length: "
                      "0 <= consumed <= len(buffer) is no longer visible", loc(r.ast),
@@ -638,6 +638,8 @@ def check_call(ctx, repo, res, dv, node, root, x, report, fresh):
         ctx.note(f"decode calls unknown function {f.id}() at line {x.lineno}: not modelled")
         return 0
     if isinstance(f, ast.Attribute):
+        if f.attr == "decode" and isinstance(f.value, ast.Constant) and isinstance(f.value.value, bytes) and f.value.value.isascii():
+            return 0  # a literal of ASCII bytes decodes under every codec the library could name
         if f.attr == "decode" and unparse(f.value) != "self":
             codec = x.args[0].value if x.args and isinstance(x.args[0], ast.Constant) else None
             lenient = any(k.arg == "errors" and isinstance(k.value, ast.Constant) and k.value.value in ("replace", "ignore") for k in x.keywords)
@@ -842,6 +844,8 @@ def is_start_name(dv, e, start_call):
     if not isinstance(e, ast.Name):
         return False
     vals = derivation(dv.fn, e.id, 0).get(e.id, [])
+    # (re-assigning the "not found" value -1 where the search failed changes nothing)
+    vals = [v for v in vals if not (unparse(v) == "-1")]
     return len(vals) == 1 and vals[0] is start_call
 
 
